@@ -6,8 +6,9 @@ from harness import common
 TRUSTED = [
     'Coq 8.16.1 kernel; C17 theorems (cost model, spacing table regenerated from token_printer.py) closed under the global context',
     'translator/tokenrules.py: the previous-token classes after which each emit method inserts a space',
-    'the property itself is decided by exhaustive measurement over the finite pinned corpus (corpus/PINNED.sha256: CPython 3.12.1 standard library without tests + /repo/src), computed by CPython, not by the kernel',
+    'the property itself is decided by exhaustive measurement over the finite pinned corpus (corpus/PINNED.sha256: CPython 3.12.1 standard library; corpus/PINNED_SITE.sha256: the third-party packages of the test environment; + /repo/src), computed by CPython, not by the kernel',
 ]
+SITE = '/venv/lib/python3.12/site-packages'
 SIZE_OPTS = ['combine_imports', 'remove_pass', 'remove_annotations', 'remove_object_base', 'remove_builtin_exception_brackets', 'remove_explicit_return_none',
              'convert_posargs_to_args', 'hoist_literals', 'rename_locals', 'rename_globals', 'constant_folding']
 ALL = SIZE_OPTS + ['remove_literal_statements', 'preserve_shebang', 'remove_asserts', 'remove_debug']
@@ -148,6 +149,10 @@ def run(pid, tier):
     for line in open(os.path.join(common.VERIF, 'corpus', 'PINNED.sha256')):
         h, rel = line.rstrip('\n').split('  ', 1)
         pinned[rel] = h
+    # second pinned corpus: the third-party packages installed in the test environment (typed, modern code)
+    for line in open(os.path.join(common.VERIF, 'corpus', 'PINNED_SITE.sha256')):
+        h, rel = line.rstrip('\n').split('  ', 1)
+        pinned['site-packages/' + rel] = h
     rels = sorted(pinned)
     eff = tier if (not res.broken or tier == 'thorough') else 'search'
     step = {'quick': 20, 'search': 6}.get(eff, 1)
@@ -160,7 +165,7 @@ def run(pid, tier):
         except Exception:
             dense = set()
         rels = sorted(set(sample) | (dense & set(rels)))
-    paths = [os.path.join(common.STDLIB, r) for r in rels]
+    paths = [os.path.join(SITE, r[len('site-packages/'):]) if r.startswith('site-packages/') else os.path.join(common.STDLIB, r) for r in rels]
     srcdir = os.path.join(common.REPO, 'src', 'python_minifier')
     extra = [os.path.join(d, f) for d, _x, fs in os.walk(srcdir) for f in sorted(fs) if f.endswith('.py')]
     synthetic = []
@@ -173,8 +178,8 @@ def run(pid, tier):
     hist = collections.Counter()
     shrink = collections.Counter()
     for path, h, rows in results:
-        rel = path if path.startswith('synthetic:') else os.path.relpath(path, common.STDLIB) if path.startswith(common.STDLIB) else os.path.relpath(path, common.REPO)
-        if path.startswith(common.STDLIB) and pinned.get(rel) != h:
+        rel = path if path.startswith('synthetic:') else 'site-packages/' + os.path.relpath(path, SITE) if path.startswith(SITE) else os.path.relpath(path, common.STDLIB) if path.startswith(common.STDLIB) else os.path.relpath(path, common.REPO)
+        if (path.startswith(common.STDLIB) or path.startswith(SITE)) and pinned.get(rel) != h:
             skipped += 1
             continue
         for o, bname, verdict, a, b in rows:
